@@ -119,6 +119,19 @@ class FakeIO:
         return self.r.next_line()
 
 
+
+def conn_index_of(conns, m):
+    """which connection a recorded message arrived on: the one whose own list holds this very object
+    (an unresolved target object has no .connection, so that attribute cannot be used)"""
+    for k, c in enumerate(conns):
+        try:
+            if any(x is m for x in c.messages()):
+                return k
+        except Exception:
+            pass
+    return -1
+
+
 class LogRunner:
     def __init__(self, config, events, render):
         """config: (display, stop, color, unprocessed, in_gdb); events: model-shaped events;
@@ -197,7 +210,7 @@ class LogRunner:
         conns = list(self.cm.connection_list)
         allm = []
         for m in k.all_messages:
-            ci = conns.index(m.obj.connection) if m.obj.connection in conns else -1
+            ci = conn_index_of(conns, m)
             allm.append([ci, canon_msg(m)])
         implenv.set_color(False)
         return [[canon_conn(c) for c in conns], str(k.display_matcher), str(k.stop_matcher), cur, allm,
